@@ -795,7 +795,7 @@ func TestCheck(t *testing.T) {
 	r.Set("layouts_core_0..3_neighbours", len(core))
 	sers, vals, us := serials(th), validities(), uids(th)
 	allN := []int{0, 1, 2}
-	modesQ := []int{0, 1 + preWithAKI, 1 + preNoAKI}
+	modesQ := []int{0, 1 + preWithAKI, 1 + preNoAKI, 1 + preFullAKI}
 	one := [][]sctSpec{nil}
 	ecRSA := []string{"p256", "rsa2048"}
 
